@@ -50,9 +50,60 @@ CHECKS += [
            "OpenMP data-race freedom; kernels not yet under contract are listed in the evidence and are not part of the claim",
       note=PROOF_NOTE + "; well-formed-call preconditions as written in the contracts", technique="safety contracts on the real C, VCs by symbolic execution, z3; ASan/UBSan replay"),
 ]
-_todo = "check under construction in this session (see DESIGN.md section 5 for the planned contracts)"
+BOUNDED_NOTE = "the bounded stand-ins evaluate contracts on the real code over the stated finite space and are never counted as proved"
+CHECKS += [
+ dict(id="C03", engine="symtrace, pysym", category="other", design_ref="DESIGN.md section 5 C03",
+      text="proved for all integers h,k,l: every centring rule of the outif table equals the tabulated systematic absence; ds(hkl)^2 = hkl.gi.hkl with gi the "
+           "inverse metric; makerings executed symbolically on 5 peaks with symbolic ascending d* (partition, ascending rings, tolerance). Bounded: gethkls "
+           "completeness / soundness / no duplicates and ring structure against brute-force enumeration on 14 cells",
+      note="numpy.linalg.inv = adjugate; python % = floor modulo; the sweep loop of gethkls is only covered by the bounded stand-in; " + BOUNDED_NOTE,
+      technique="symbolic execution of the real python functions (z3, all integers) + brute-force enumeration oracle on a stated grid"),
+ dict(id="C05", engine="cfront+csym", category="other", design_ref="DESIGN.md section 5 C05",
+      text="proved: memory safety of the compiled quickorient kernel. Bounded: for 9 cells of all lattice systems, random orientations and every non-collinear "
+           "reflection pair of the first rings, every candidate of unitcell.orient is right handed, has the cell's parameters, indexes both reflections, the list "
+           "contains the true orientation (crange mode) and no two equivalent candidates",
+      note="the functional clauses of C05 are decided by a bounded stand-in only; " + BOUNDED_NOTE,
+      technique="safety contract on the real C (z3) + run-time contract evaluation of the real orient / filter_pairs on a stated grid"),
+ dict(id="C12", engine="cfront+csym", category="other", design_ref="DESIGN.md section 5 C12",
+      text="proved for all inputs: add_pixel adds exactly the pixel's contribution to each of the accumulators, merge combines two accumulator rows and zeroes the "
+           "second; memory safety of blobproperties / compute_moments. Bounded: the real labelimage pipeline on every pair of binary 2x3 frames, every triple of "
+           "2x2 frames and random stacks vs a 3-D component oracle",
+      note=PROOF_NOTE + "; python glue (mergelast / outputpeaks) and bloboverlaps only through the bounded stand-in; " + BOUNDED_NOTE,
+      technique="function contracts on the real C (z3) + exhaustive small-stack comparison with an independent oracle"),
+ dict(id="C13", engine="clib run-time contracts", category="other", design_ref="DESIGN.md section 5 C13",
+      text="bounded only: the freshly compiled localmaxlabel kernels against the steepest-ascent specification on tie-free images, buffer-content and thread-count "
+           "independence, sparse == dense partition; the thread dependence on long ascent paths is a recorded known finding",
+      note="no obligation is proved for C13 (SIMD intrinsics and the three-stage omp structure are outside engine A); " + BOUNDED_NOTE,
+      technique="run-time evaluation of the steepest-ascent contract on the real kernels over a stated image family"),
+ dict(id="C14", engine="cfront+csym", category="other", design_ref="DESIGN.md section 5 C14",
+      text="proved for all images: tosparse_f32/u16/u32 return the count of selected pixels, every entry is a selected pixel with its value, positions strictly "
+           "increase row-major; sparse_is_sorted characterised; sparse_overlaps soundness, ordering and tail zeroing; coverlaps safety and key faithfulness. "
+           "Bounded: completeness of overlaps, matrix entries, mask_to_coo, compress_duplicates and the sparse_frame python glue vs dictionary oracles",
+      note=PROOF_NOTE + "; f2py passes contiguous arrays; " + BOUNDED_NOTE,
+      technique="function contracts + loop invariants on the real C (z3) + run-time contracts on the python glue"),
+ dict(id="C15", engine="numba run-time contracts", category="other", design_ref="DESIGN.md section 5 C15",
+      text="bounded only: find_ND_labels vs union-find (labels exactly 0..n-1, same partition) on degenerate and random overlap graphs for several thread counts; "
+           "numbapkmerge / pk2dmerge vs bincount sums and weighted means",
+      note="no obligation is proved for C15 (numba prange kernels were not brought under engine P); " + BOUNDED_NOTE,
+      technique="run-time evaluation of partition / sum contracts on the real numba functions over stated graph families"),
+ dict(id="C16", engine="pysym, symtrace", category="proof", design_ref="DESIGN.md section 5 C16",
+      text="the ten groups are closed terms decided completely (closure, inverses, integrality, det +1, order); o.G.o^T = G proved for every operator and symbolic "
+           "conforming cell; find_uniq_u executed symbolically from its AST over the real group: in orbit, maximal trace, orbit-invariant and idempotent without "
+           "ties; hklmax injectivity and find_uniq_hkls maximality",
+      note="np.dot / trace / where on object arrays are the real functions; the tie case of find_uniq_u is a recorded known finding",
+      technique="symbolic execution of the python AST with the loop over the real group unrolled; z3"),
+ dict(id="C17", engine="icontract-style run-time invariants", category="other", design_ref="DESIGN.md section 5 C17",
+      text="bounded only: class invariant of columnfile (titles / ncols / nrows / views are one storage, probed by writing through each view) and per-operation "
+           "postconditions after every step of every operation sequence up to depth 3 (quick) / 4 (thorough) over 15 operations",
+      note="no obligation is proved for C17 (numpy view aliasing is outside the engines); " + BOUNDED_NOTE,
+      technique="class invariant + postconditions evaluated on the real class over all operation sequences up to a bound"),
+ dict(id="C18", engine="run-time round-trip contracts", category="other", design_ref="DESIGN.md section 5 C18",
+      text="bounded only: write/read round trips of columnfile text and HDF5, parameter files, grain files and sparse-frame HDF5 groups on a stated grid; FORMATS "
+           "table inspected completely; parameter-file string coercions are recorded known findings",
+      note="no obligation is proved for C18 (printf/strtod/h5py are external); " + BOUNDED_NOTE,
+      technique="round-trip postconditions evaluated on the real writers and readers over a stated grid"),
+]
 NOT_APPLICABLE = [
  dict(property_id="C08", reason="soundness+completeness of a heuristic search over a whole peak set and mutable indexer state: no per-function contract expresses 'finds every grain'; kernels covered by C05/C06/C07"),
  dict(property_id="C09", reason="convergence of a Nelder-Mead optimiser to a tolerance is not a partial-correctness property of any function; pieces covered by C01/C06/C07"),
-] + [dict(property_id=i, reason=_todo) for i in
-     ["C03", "C05", "C12", "C13", "C14", "C15", "C16", "C17", "C18"]]
+]
